@@ -193,22 +193,52 @@ Proof.
   - subst name. f_equal; [lia|]. f_equal. lia.
 Qed.
 
-(* ------------------------------------------------------------------ soundness *)
-Lemma gpp_aux_sound fuel : forall s1 s2 asg,
-  gpp_aux fuel s1 s2 = Ok (asg, true) ->
-  map fst asg = names s1 /\
-  forall ps, (forall n v, In (n, v) asg -> lookup_last n ps = Some v) -> subst ps s1 = s2.
+(* ------------------------------------------------------------------ the map *)
+Definition ext (acc acc' : assignments) : Prop :=
+  forall n v, lookup_last n acc = Some v -> lookup_last n acc' = Some v.
+
+Lemma ext_refl acc : ext acc acc. Proof. intros n v H; exact H. Qed.
+Lemma ext_trans a b c : ext a b -> ext b c -> ext a c.
+Proof. intros H1 H2 n v H. apply H2, H1, H. Qed.
+
+Lemma lookup_last_snoc (acc : assignments) name v n :
+  lookup_last n (acc ++ [(name, v)]) = if beq n name then Some v else lookup_last n acc.
+Proof. unfold lookup_last. rewrite rev_app_distr. reflexivity. Qed.
+
+Lemma pset_some name v acc acc' :
+  pset name v acc = Some acc' -> ext acc acc' /\ lookup_last name acc' = Some v.
 Proof.
-  induction fuel as [|fuel IH]; intros s1 s2 asg H; [discriminate|].
+  unfold pset. destruct (lookup_last name acc) as [pre|] eqn:E.
+  - destruct (beq pre v) eqn:Eb; [|discriminate]. intros H; inversion H; subst. apply beq_eq in Eb. subst pre.
+    split.
+    + intros n w Hn. rewrite lookup_last_snoc. destruct (beq n name) eqn:En; auto.
+      apply beq_eq in En. subst. congruence.
+    + rewrite lookup_last_snoc, beq_refl. reflexivity.
+  - intros H; inversion H; subst. split.
+    + intros n w Hn. rewrite lookup_last_snoc. destruct (beq n name) eqn:En; auto.
+      apply beq_eq in En. subst. congruence.
+    + rewrite lookup_last_snoc, beq_refl. reflexivity.
+Qed.
+
+(* ------------------------------------------------------------------ soundness (full strength) *)
+Lemma gpp_aux_sound fuel : forall s1 s2 acc acc',
+  gpp_aux fuel s1 s2 acc = Ok (acc', true) -> ext acc acc' /\ subst acc' s1 = s2.
+Proof.
+  induction fuel as [|fuel IH]; intros s1 s2 acc acc' H; [discriminate|].
   cbn [gpp_aux] in H.
+  destruct ((index DB s1 <? 0) || (len s2 <? index DB s1)); [discriminate|].
   inv_bind H p1 Hp1. inv_bind H p2 Hp2.
   destruct (beq p1 p2) eqn:Hb; simpl negb in H; cbv iota in H; [|discriminate].
+  destruct (index RB s1 <? index DB s1 + 2); [discriminate|].
   inv_bind H t Ht.
   destruct (index DB t <? 0) eqn:Hnext.
   - (* last placeholder *)
+    destruct (len t <=? len s2 - index DB s1); [|discriminate].
     inv_bind H sfx Hsfx.
     destruct (beq t sfx) eqn:Hts; [|discriminate].
-    inv_bind H name Hname. inv_bind H v Hv. inversion H; subst asg; clear H.
+    inv_bind H name Hname. inv_bind H v Hv.
+    destruct (pset name v acc) as [acc1|] eqn:Hset; [|discriminate]. inversion H; subst acc1; clear H.
+    destruct (pset_some _ _ _ _ Hset) as [Hext Hlk].
     destruct (name_slice_facts _ _ _ _ _ _ _ eq_refl Hp1 Hp2 Hb eq_refl Hname)
       as (i & en & Ei & Ee & F & En).
     destruct F as [Fdb Frb Fle Felen Filen Fpre].
@@ -217,23 +247,23 @@ Proof.
     apply slice_from_ok in Hsfx as (S1 & S2 & S3).
     apply beq_eq in Hts. apply Z.ltb_lt in Hnext. apply index_lt0 in Hnext.
     apply slice_ok in Hv as (V1 & V2 & V3 & V4).
-    split.
-    + simpl. rewrite (names_step s1 i en Fdb Frb Fle). rewrite <- T3, (names_no_db t Hnext), <- En. reflexivity.
-    + intros ps Hps.
-      rewrite (subst_step ps s1 i en Fdb Frb Fle), <- En, <- T3, (subst_no_db ps t Hnext).
-      unfold value_of. rewrite (Hps name v) by (left; reflexivity).
-      rewrite Fpre.
-      transitivity (firstn i s2 ++ skipn i s2); [|apply firstn_skipn]. f_equal.
-      rewrite Ei in V4. rewrite Nat2Z.id in V4.
-      rewrite (skipn_firstn_split s2 i (Z.to_nat (len s2 - len t - Z.of_nat i))).
-      rewrite <- V4. f_equal.
-      rewrite Hts at 1. rewrite S3. f_equal. unfold len in *. lia.
+    split; [exact Hext|].
+    rewrite (subst_step acc' s1 i en Fdb Frb Fle), <- En, <- T3, (subst_no_db acc' t Hnext).
+    unfold value_of. rewrite Hlk.
+    rewrite Fpre.
+    transitivity (firstn i s2 ++ skipn i s2); [|apply firstn_skipn]. f_equal.
+    rewrite Ei in V4. rewrite Nat2Z.id in V4.
+    rewrite (skipn_firstn_split s2 i (Z.to_nat (len s2 - len t - Z.of_nat i))).
+    rewrite <- V4. f_equal.
+    rewrite Hts at 1. rewrite S3. f_equal. unfold len in *. lia.
   - (* a further placeholder follows *)
     inv_bind H needle Hneedle. inv_bind H h Hh.
     destruct (0 <? index needle h) eqn:Hm; [|discriminate].
-    inv_bind H name Hname. inv_bind H v Hv. inv_bind H s1' Hs1'. inv_bind H s2' Hs2'.
-    destruct (gpp_aux fuel s1' s2') as [[asg' ok']| |] eqn:Hrec; try discriminate.
-    inversion H; subst asg ok'; clear H.
+    inv_bind H name Hname. inv_bind H v Hv.
+    destruct (pset name v acc) as [acc1|] eqn:Hset; [|discriminate].
+    inv_bind H s1' Hs1'. inv_bind H s2' Hs2'.
+    destruct (pset_some _ _ _ _ Hset) as [Hext Hlk].
+    destruct (IH s1' s2' acc1 acc' H) as [IHe IHs].
     destruct (name_slice_facts _ _ _ _ _ _ _ eq_refl Hp1 Hp2 Hb eq_refl Hname)
       as (i & en & Ei & Ee & F & En).
     destruct F as [Fdb Frb Fle Felen Filen Fpre].
@@ -242,247 +272,129 @@ Proof.
     apply Z.ltb_lt in Hm.
     apply slice_ok in Hv as (V1 & V2 & V3 & V4).
     apply slice_from_ok in Hs2' as (U1 & U2 & U3).
-    destruct (IH s1' s2' asg' Hrec) as [IHn IHs].
-    split.
-    + simpl. rewrite (names_step s1 i en Fdb Frb Fle), <- T3, <- En, IHn. reflexivity.
-    + intros ps Hps.
-      rewrite (subst_step ps s1 i en Fdb Frb Fle), <- En, <- T3.
-      unfold value_of. rewrite (Hps name v) by (left; reflexivity).
-      rewrite (IHs ps) by (intros n0 v0 Hin; apply Hps; right; exact Hin).
-      rewrite Fpre.
-      transitivity (firstn i s2 ++ skipn i s2); [|apply firstn_skipn]. f_equal.
-      rewrite Ei in V4, U3. rewrite Nat2Z.id in V4.
-      rewrite (skipn_firstn_split s2 i (Z.to_nat (index needle h))).
-      replace (Z.of_nat i + index needle h - Z.of_nat i) with (index needle h) in V4 by lia.
-      rewrite <- V4. f_equal. rewrite U3. f_equal. lia.
+    split; [apply (ext_trans _ _ _ Hext IHe)|].
+    rewrite (subst_step acc' s1 i en Fdb Frb Fle), <- En, <- T3.
+    unfold value_of. rewrite (IHe name v Hlk). rewrite IHs.
+    rewrite Fpre.
+    transitivity (firstn i s2 ++ skipn i s2); [|apply firstn_skipn]. f_equal.
+    rewrite Ei in V4, U3. rewrite Nat2Z.id in V4.
+    rewrite (skipn_firstn_split s2 i (Z.to_nat (index needle h))).
+    replace (Z.of_nat i + index needle h - Z.of_nat i) with (index needle h) in V4 by lia.
+    rewrite <- V4. f_equal. rewrite U3. f_equal. lia.
 Qed.
 
-Lemma prop_patches_sound_on_D_lemma s1 s2 ps :
-  d_sound s1 = true -> generate_property_patches s1 s2 = Ok (ps, true) -> subst ps s1 = s2.
+Lemma prop_patches_sound_lemma s1 s2 ps :
+  generate_property_patches s1 s2 = Ok (ps, true) -> subst ps s1 = s2.
+Proof. unfold generate_property_patches. intros H. apply (gpp_aux_sound _ _ _ _ _ H). Qed.
+
+(* ------------------------------------------------------------------ no panic (full strength) *)
+Lemma index_bounds n s : -1 <= index n s <= len s.
 Proof.
-  unfold d_sound, generate_property_patches. intros HD H.
-  destruct (gpp_aux_sound _ _ _ _ H) as [Hn Hs].
-  apply Hs. intros n v Hin. apply lookup_last_nodup; auto. rewrite Hn. exact HD.
+  unfold index, len. destruct (index_nat n s) as [i|] eqn:E; [|lia].
+  apply index_nat_some in E as (_ & _ & H). lia.
 Qed.
+
+Lemma index_rb_lt_len s : 0 <= index RB s -> index RB s < len s.
+Proof.
+  intros H. destruct (index_ge0 RB s H) as (i & Hi & ->). apply index_rb_lt in Hi. unfold len. lia.
+Qed.
+
+Lemma slice_len s lo hi x : slice s lo hi = Ok x -> len x = hi - lo.
+Proof.
+  intros H. apply slice_ok in H as (H1 & H2 & H3 & ->). unfold len in *.
+  rewrite firstn_length, skipn_length. lia.
+Qed.
+
+Lemma gpp_aux_total fuel : forall s1 s2 acc, gpp_aux fuel s1 s2 acc <> Panic.
+Proof.
+  induction fuel as [|fuel IH]; intros s1 s2 acc; [discriminate|].
+  cbn [gpp_aux].
+  pose proof (index_bounds DB s1) as Bs.
+  destruct ((index DB s1 <? 0) || (len s2 <? index DB s1)) eqn:G1; [discriminate|].
+  apply orb_false_iff in G1 as [G1 G2]. apply Z.ltb_ge in G1, G2.
+  unfold slice_to at 1. rewrite slice_in_range by lia. cbn [bind].
+  unfold slice_to at 1. rewrite slice_in_range by lia. cbn [bind].
+  match goal with |- (if ?c then _ else _) <> _ => destruct c end; [discriminate|].
+  destruct (index RB s1 <? index DB s1 + 2) eqn:G3; [discriminate|]. apply Z.ltb_ge in G3.
+  pose proof (index_rb_lt_len s1 ltac:(lia)) as Be.
+  destruct (slice_from s1 (index RB s1 + 1)) as [t| |] eqn:Ht.
+  2:{ unfold slice_from in Ht. rewrite slice_in_range in Ht by lia. discriminate. }
+  2:{ unfold slice_from, slice in Ht. destruct (_ && _); discriminate. }
+  cbn [bind].
+  assert (Lt : len t = len s1 - (index RB s1 + 1)) by (apply (slice_len _ _ _ _ Ht)).
+  pose proof (index_bounds DB t) as Bn.
+  destruct (index DB t <? 0) eqn:G4.
+  - destruct (len t <=? len s2 - index DB s1) eqn:G5; [|discriminate]. apply Z.leb_le in G5.
+    assert (0 <= len t) by (unfold len; lia).
+    unfold slice_from at 1. rewrite slice_in_range by lia. cbn [bind].
+    match goal with |- (if ?c then _ else _) <> _ => destruct c end; [|discriminate].
+    rewrite slice_in_range by lia. cbn [bind].
+    rewrite slice_in_range by lia. cbn [bind].
+    destruct (pset _ _ acc); discriminate.
+  - apply Z.ltb_ge in G4.
+    rewrite slice_in_range by lia. cbn [bind].
+    destruct (slice_from s2 (index DB s1)) as [h| |] eqn:Hh.
+    2:{ unfold slice_from in Hh. rewrite slice_in_range in Hh by lia. discriminate. }
+    2:{ unfold slice_from, slice in Hh. destruct (_ && _); discriminate. }
+    cbn [bind].
+    assert (Lh : len h = len s2 - index DB s1) by (apply (slice_len _ _ _ _ Hh)).
+    match goal with |- context [index ?nd h] => set (needle := nd) end.
+    pose proof (index_bounds needle h) as Bm.
+    destruct (0 <? index needle h) eqn:G6; [|discriminate]. apply Z.ltb_lt in G6.
+    rewrite slice_in_range by lia. cbn [bind].
+    rewrite slice_in_range by lia. cbn [bind].
+    destruct (pset _ _ acc) as [acc1|]; [|discriminate].
+    unfold slice_from at 1. rewrite slice_in_range by lia. cbn [bind].
+    apply IH.
+Qed.
+
+Lemma prop_patches_total_lemma s1 s2 : generate_property_patches s1 s2 <> Panic.
+Proof. apply gpp_aux_total. Qed.
 
 (* ------------------------------------------------------------------ fuel *)
-Lemma gpp_aux_fuel fuel : forall s1 s2, (length s1 < fuel)%nat -> gpp_aux fuel s1 s2 <> OutOfFuel.
+Lemma gpp_aux_fuel fuel : forall s1 s2 acc, (length s1 < fuel)%nat -> gpp_aux fuel s1 s2 acc <> OutOfFuel.
 Proof.
-  induction fuel as [|fuel IH]; intros s1 s2 Hl; [lia|].
+  induction fuel as [|fuel IH]; intros s1 s2 acc Hl; [lia|].
   cbn [gpp_aux].
-  destruct (slice_to s1 (index DB s1)) as [p1| |] eqn:Hp1; simpl; try discriminate.
-  2:{ unfold slice_to, slice in Hp1. destruct (_ && _); discriminate. }
-  destruct (slice_to s2 (index DB s1)) as [p2| |] eqn:Hp2; simpl; try discriminate.
-  2:{ unfold slice_to, slice in Hp2. destruct (_ && _); discriminate. }
-  destruct (negb (beq p1 p2)); [discriminate|].
-  destruct (slice_from s1 (index RB s1 + 1)) as [t| |] eqn:Ht; simpl; try discriminate.
+  pose proof (index_bounds DB s1) as Bs.
+  destruct ((index DB s1 <? 0) || (len s2 <? index DB s1)) eqn:G1; [discriminate|].
+  apply orb_false_iff in G1 as [G1 G2]. apply Z.ltb_ge in G1, G2.
+  unfold slice_to at 1. rewrite slice_in_range by lia. cbn [bind].
+  unfold slice_to at 1. rewrite slice_in_range by lia. cbn [bind].
+  match goal with |- (if ?c then _ else _) <> _ => destruct c end; [discriminate|].
+  destruct (index RB s1 <? index DB s1 + 2) eqn:G3; [discriminate|]. apply Z.ltb_ge in G3.
+  pose proof (index_rb_lt_len s1 ltac:(lia)) as Be.
+  destruct (slice_from s1 (index RB s1 + 1)) as [t| |] eqn:Ht.
+  2:{ discriminate. }
   2:{ unfold slice_from, slice in Ht. destruct (_ && _); discriminate. }
-  destruct (index DB t <? 0).
-  - destruct (slice_from s2 (len s2 - len t)) as [sfx| |] eqn:Hsfx; simpl; try discriminate.
-    2:{ unfold slice_from, slice in Hsfx. destruct (_ && _); discriminate. }
-    destruct (beq t sfx); [|discriminate].
-    unfold slice. destruct (_ && _); simpl; [|discriminate]. destruct (_ && _); simpl; discriminate.
-  - destruct (slice s1 (index RB s1 + 1) (index RB s1 + 1 + index DB t)) as [needle| |] eqn:Hnd; simpl; try discriminate.
-    2:{ unfold slice in Hnd. destruct (_ && _); discriminate. }
-    destruct (slice_from s2 (index DB s1)) as [h| |] eqn:Hh; simpl; try discriminate.
+  cbn [bind].
+  assert (Lt : len t = len s1 - (index RB s1 + 1)) by (apply (slice_len _ _ _ _ Ht)).
+  pose proof (index_bounds DB t) as Bn.
+  destruct (index DB t <? 0) eqn:G4.
+  - destruct (len t <=? len s2 - index DB s1) eqn:G5; [|discriminate]. apply Z.leb_le in G5.
+    assert (0 <= len t) by (unfold len; lia).
+    unfold slice_from at 1. rewrite slice_in_range by lia. cbn [bind].
+    match goal with |- (if ?c then _ else _) <> _ => destruct c end; [|discriminate].
+    rewrite slice_in_range by lia. cbn [bind].
+    rewrite slice_in_range by lia. cbn [bind].
+    destruct (pset _ _ acc); discriminate.
+  - apply Z.ltb_ge in G4.
+    rewrite slice_in_range by lia. cbn [bind].
+    destruct (slice_from s2 (index DB s1)) as [h| |] eqn:Hh.
+    2:{ discriminate. }
     2:{ unfold slice_from, slice in Hh. destruct (_ && _); discriminate. }
-    destruct (0 <? index needle h); [|discriminate].
-    destruct (slice s1 (index DB s1 + 2) (index RB s1)) as [name| |] eqn:Hname; simpl; try discriminate.
-    2:{ unfold slice in Hname. destruct (_ && _); discriminate. }
-    destruct (slice s2 (index DB s1) (index DB s1 + index needle h)) as [v| |] eqn:Hv; simpl; try discriminate.
-    2:{ unfold slice in Hv. destruct (_ && _); discriminate. }
-    destruct (slice_from s2 (index DB s1 + index needle h)) as [s2'| |] eqn:Hs2'; simpl; try discriminate.
-    2:{ unfold slice_from, slice in Hs2'. destruct (_ && _); discriminate. }
-    assert (Hlt : (length t < fuel)%nat).
-    { apply slice_from_ok in Ht as (T1 & T2 & T3). apply slice_ok in Hname as (C1 & C2 & C3 & _).
-      apply slice_to_ok in Hp1 as (A1 & _). subst t. rewrite skipn_length. unfold len in *. lia. }
-    pose proof (IH t s2' Hlt) as Hrec.
-    destruct (gpp_aux fuel t s2') as [[a o]| |]; try discriminate. contradiction.
+    cbn [bind].
+    assert (Lh : len h = len s2 - index DB s1) by (apply (slice_len _ _ _ _ Hh)).
+    match goal with |- context [index ?nd h] => set (needle := nd) end.
+    pose proof (index_bounds needle h) as Bm.
+    destruct (0 <? index needle h) eqn:G6; [|discriminate]. apply Z.ltb_lt in G6.
+    rewrite slice_in_range by lia. cbn [bind].
+    rewrite slice_in_range by lia. cbn [bind].
+    destruct (pset _ _ acc) as [acc1|]; [|discriminate].
+    unfold slice_from at 1. rewrite slice_in_range by lia. cbn [bind].
+    unfold slice_from in Ht. rewrite slice_in_range in Ht by lia. inversion Ht as [Et].
+    apply IH. rewrite firstn_length, skipn_length. unfold len in *. lia.
 Qed.
 
 Lemma generate_never_out_of_fuel s1 s2 : generate_property_patches s1 s2 <> OutOfFuel.
 Proof. apply gpp_aux_fuel. lia. Qed.
-
-(* ------------------------------------------------------------------ no panic on d_total *)
-Lemma split_brace_spec b n a :
-  split_brace b = Some (n, a) -> b = n ++ 125%N :: a /\ existsb (N.eqb 125) n = false.
-Proof.
-  revert n a; induction b as [|c b IH]; simpl; intros n a H; [discriminate|].
-  destruct (N.eqb c 125) eqn:E.
-  - inversion H; subst. apply N.eqb_eq in E. subst. split; reflexivity.
-  - destruct (split_brace b) as [[n' a']|]; [|discriminate]. inversion H; subst.
-    destruct (IH n' a eq_refl) as [-> H2]. split; [reflexivity|]. cbn [existsb]. rewrite N.eqb_sym, E. exact H2.
-Qed.
-
-Lemma index_rb_app n a : existsb (N.eqb 125) n = false -> index_nat RB (n ++ 125%N :: a) = Some (length n).
-Proof.
-  unfold RB. induction n as [|c n IH]; simpl; intros H.
-  - reflexivity.
-  - apply orb_false_iff in H as [H1 H2]. rewrite H1. simpl. rewrite (IH H2). reflexivity.
-Qed.
-
-Lemma index_rb_cons c s e : N.eqb 125 c = false -> index_nat RB s = Some e -> index_nat RB (c :: s) = Some (S e).
-Proof. unfold RB. intros H1 H2. cbn [index_nat prefixb]. rewrite H1. simpl. rewrite H2. reflexivity. Qed.
-
-Lemma parse_segs_nil s : fst (parse s) = [] -> snd (parse s) = s.
-Proof.
-  induction s as [|c r IH]; [reflexivity|].
-  destruct (is_db (c :: r)) as [body|] eqn:E.
-  - destruct (split_brace body) as [[name after]|] eqn:E2.
-    + rewrite (parse_db _ _ _ _ E E2). simpl. discriminate.
-    + unfold parse. cbn [length parse_fuel]. rewrite E, E2. reflexivity.
-  - rewrite (parse_cons c r E). unfold prepend. destruct (fst (parse r)) as [|[l0 n] t] eqn:Ef; simpl.
-    + intros _. rewrite IH; auto.
-    + discriminate.
-Qed.
-
-(* the shape of a template with at least one placeholder, in terms of the positions Go computes *)
-Lemma parse_cons_inv s : forall l0 n0 t rem,
-  parse s = ((l0, n0) :: t, rem) ->
-  exists s', s = l0 ++ DB ++ n0 ++ 125%N :: s' /\ parse s' = (t, rem) /\
-             index_nat DB s = Some (length l0) /\
-             (no_rb l0 = true -> index_nat RB s = Some (length l0 + 2 + length n0)%nat).
-Proof.
-  induction s as [|c r IH]; intros l0 n0 t rem H; [discriminate|].
-  destruct (is_db (c :: r)) as [body|] eqn:E.
-  - destruct (split_brace body) as [[name after]|] eqn:E2.
-    + rewrite (parse_db _ _ _ _ E E2) in H. inversion H; subst.
-      apply is_db_spec in E as [E1 E3].
-      apply split_brace_spec in E2 as [E2 E4].
-      exists after. pose proof (prefixb_decomp _ _ E1) as Hd. simpl length in Hd. rewrite <- E3, E2 in Hd.
-      repeat split.
-      * exact Hd.
-      * destruct (parse after); reflexivity.
-      * cbn [index_nat]. rewrite E1. reflexivity.
-      * intros _. rewrite Hd. unfold DB. cbn [app]. 
-        rewrite (index_rb_cons 36 _ (S (length n0))); [reflexivity|reflexivity|].
-        rewrite (index_rb_cons 123 _ (length n0)); [reflexivity|reflexivity|].
-        apply index_rb_app. exact E4.
-    + unfold parse in H. cbn [length parse_fuel] in H. rewrite E, E2 in H. discriminate.
-  - rewrite (parse_cons c r E) in H. unfold prepend in H.
-    destruct (parse r) as [[|[l0' n0'] t'] rem'] eqn:Ep; simpl in H; [discriminate|].
-    inversion H; subst.
-    destruct (IH l0' n0 t rem eq_refl) as (s' & H1 & H2 & H3 & H4).
-    exists s'. repeat split.
-    + simpl. rewrite H1. reflexivity.
-    + exact H2.
-    + cbn [index_nat]. apply is_db_none in E. rewrite E. rewrite H3. reflexivity.
-    + intros Hn. unfold no_rb in Hn. simpl in Hn. apply negb_true_iff in Hn. apply orb_false_iff in Hn as [Hc Hl].
-      simpl. apply index_rb_cons; auto. apply H4. unfold no_rb. rewrite Hl. reflexivity.
-Qed.
-
-Definition tpl_inv (s1 s2 : bytes) : Prop :=
-  exists l0 n0 t rem,
-    parse s1 = ((l0, n0) :: t, rem) /\
-    forallb (fun ln => no_rb (fst ln)) ((l0, n0) :: t) = true /\
-    index_nat DB rem = None /\
-    (length l0 <= length s2)%nat /\
-    (rem = [] \/ (t = [] /\ (length l0 + length rem <= length s2)%nat)).
-
-Lemma d_total_inv s1 s2 : d_total s1 s2 = true -> tpl_inv s1 s2.
-Proof.
-  unfold d_total, tpl_inv. destruct (parse s1) as [[|[l0 n0] t] rem] eqn:Ep; simpl fst; simpl snd; [discriminate|].
-  intros H. apply andb_true_iff in H as [H H4]. apply andb_true_iff in H as [H H3].
-  apply andb_true_iff in H as [H1 H2].
-  exists l0, n0, t, rem. repeat split; auto.
-  - apply negb_true_iff in H2. unfold contains in H2. destruct (index_nat DB rem); [discriminate|reflexivity].
-  - apply Z.leb_le in H3. unfold len in H3. lia.
-  - destruct rem as [|c rem]; [left; reflexivity|]. right.
-    destruct t; [|discriminate]. split; auto. apply Z.leb_le in H4. unfold len in H4. lia.
-Qed.
-
-Lemma app_length4 (a b c : bytes) (x : N) (d : bytes) :
-  length (a ++ b ++ c ++ x :: d) = (length a + length b + length c + 1 + length d)%nat.
-Proof. rewrite !app_length. simpl. lia. Qed.
-
-Lemma firstn_app_exact {A} (a b : list A) : firstn (length a) (a ++ b) = a.
-Proof. rewrite firstn_app, Nat.sub_diag, firstn_all. simpl. apply app_nil_r. Qed.
-
-Lemma skipn_app_exact {A} (a b : list A) : skipn (length a) (a ++ b) = b.
-Proof. rewrite skipn_app, Nat.sub_diag, skipn_all. reflexivity. Qed.
-
-Lemma gpp_aux_total fuel : forall s1 s2, tpl_inv s1 s2 -> gpp_aux fuel s1 s2 <> Panic.
-Proof.
-  induction fuel as [|fuel IH]; intros s1 s2 Hinv; [discriminate|].
-  destruct Hinv as (l0 & n0 & t & rem & Hp & Hrb & Hrem & Hl0 & Hcase).
-  destruct (parse_cons_inv s1 l0 n0 t rem Hp) as (s1' & Hs1 & Hp' & Hdb & Hrbi).
-  simpl in Hrb. apply andb_true_iff in Hrb as [Hrb0 Hrbt]. specialize (Hrbi Hrb0).
-  assert (Elen : length s1 = (length l0 + 2 + length n0 + 1 + length s1')%nat).
-  { rewrite Hs1 at 1. rewrite app_length4. reflexivity. }
-  cbn [gpp_aux].
-  assert (Estart : index DB s1 = Z.of_nat (length l0)) by (unfold index; rewrite Hdb; reflexivity).
-  assert (Ee : index RB s1 = Z.of_nat (length l0 + 2 + length n0)) by (unfold index; rewrite Hrbi; reflexivity).
-  rewrite Estart, Ee.
-  unfold slice_to at 1. rewrite slice_in_range by (unfold len; lia). cbn [bind].
-  unfold slice_to at 1. rewrite slice_in_range by (unfold len; lia). cbn [bind].
-  match goal with |- (if ?c then _ else _) <> _ => destruct c end; [discriminate|].
-  unfold slice_from at 1. rewrite slice_in_range by (unfold len; lia). cbn [bind].
-  assert (Et : firstn (Z.to_nat (len s1 - (Z.of_nat (length l0 + 2 + length n0) + 1)))
-                 (skipn (Z.to_nat (Z.of_nat (length l0 + 2 + length n0) + 1)) s1) = s1').
-  { replace (Z.to_nat (Z.of_nat (length l0 + 2 + length n0) + 1)) with (length (l0 ++ DB ++ n0 ++ [125%N])).
-    2:{ rewrite !app_length. simpl. lia. }
-    assert (Es : s1 = (l0 ++ DB ++ n0 ++ [125%N]) ++ s1').
-    { rewrite Hs1 at 1. rewrite <- !app_assoc. reflexivity. }
-    rewrite Es at 2. rewrite skipn_app_exact. apply firstn_all2. unfold len. rewrite Elen. lia. }
-  rewrite Et.
-  destruct t as [|[l1 n1] t'].
-  - (* last placeholder: s1' = rem has no "${" *)
-    assert (Es1' : s1' = rem).
-    { pose proof (parse_segs_nil s1') as Hn. rewrite Hp' in Hn. simpl in Hn. symmetry. apply Hn. reflexivity. }
-    rewrite Es1' in *. clear Es1'.
-    assert (Enext : index DB rem <? 0 = true) by (unfold index; rewrite Hrem; reflexivity).
-    rewrite Enext.
-    assert (Hfit : (length l0 + length rem <= length s2)%nat).
-    { destruct Hcase as [->|[_ H]]; [simpl; lia|exact H]. }
-    unfold slice_from at 1. rewrite slice_in_range by (unfold len; lia). cbn [bind].
-    match goal with |- (if ?c then _ else _) <> _ => destruct c end; [|discriminate].
-    rewrite slice_in_range by (unfold len; lia). cbn [bind].
-    rewrite slice_in_range by (unfold len; lia). cbn [bind]. discriminate.
-  - (* a further placeholder *)
-    destruct (parse_cons_inv s1' l1 n1 t' rem Hp') as (s1'' & Hs1' & _ & Hdb' & _).
-    assert (Enext : index DB s1' = Z.of_nat (length l1)) by (unfold index; rewrite Hdb'; reflexivity).
-    rewrite Enext.
-    replace (Z.of_nat (length l1) <? 0) with false by (symmetry; apply Z.ltb_ge; lia).
-    assert (Elen' : (length l1 <= length s1')%nat).
-    { rewrite Hs1' at 1. rewrite app_length. lia. }
-    rewrite slice_in_range by (unfold len; lia). cbn [bind].
-    unfold slice_from at 1. rewrite slice_in_range by (unfold len; lia). cbn [bind].
-    match goal with |- context [index ?nd ?hh] => set (needle := nd); set (h := hh) end.
-    destruct (0 <? index needle h) eqn:Hm; [|discriminate].
-    apply Z.ltb_lt in Hm.
-    destruct (index_ge0 needle h) as (m & Hmn & Hmz); [lia|].
-    pose proof (index_nat_some _ _ _ Hmn) as (Hpre & _ & Hmle).
-    assert (Hh : length h = (length s2 - length l0)%nat).
-    { unfold h. rewrite firstn_length, skipn_length. unfold len. lia. }
-    rewrite Hmz.
-    rewrite slice_in_range by (unfold len; lia). cbn [bind].
-    rewrite slice_in_range by (unfold len; lia). cbn [bind].
-    unfold slice_from at 1. rewrite slice_in_range by (unfold len; lia). cbn [bind].
-    rewrite Et.
-    unfold slice_from at 1. rewrite slice_in_range by (unfold len; lia). cbn [bind].
-    match goal with |- context [gpp_aux fuel s1' ?x] => set (s2' := x) end.
-    assert (Hrec : gpp_aux fuel s1' s2' <> Panic).
-    { apply IH. exists l1, n1, t', rem. repeat split; auto.
-      - (* the needle is l1 and it is a prefix of s2' *)
-        assert (Hneedle : needle = l1).
-        { unfold needle.
-          replace (Z.to_nat (Z.of_nat (length l0 + 2 + length n0) + 1 + Z.of_nat (length l1) - (Z.of_nat (length l0 + 2 + length n0) + 1))) with (length l1) by lia.
-          replace (Z.to_nat (Z.of_nat (length l0 + 2 + length n0) + 1)) with (length (l0 ++ DB ++ n0 ++ [125%N])).
-          2:{ rewrite !app_length. simpl. lia. }
-          assert (Es : s1 = (l0 ++ DB ++ n0 ++ [125%N]) ++ s1') by (rewrite Hs1 at 1; rewrite <- !app_assoc; reflexivity).
-          rewrite Es. rewrite skipn_app_exact. rewrite Hs1'. apply firstn_app_exact. }
-        assert (Hs2' : s2' = skipn m h).
-        { unfold s2', h.
-          replace (Z.to_nat (len s2 - (Z.of_nat (length l0) + Z.of_nat m))) with (length s2 - (length l0 + m))%nat by (unfold len; lia).
-          replace (Z.to_nat (len s2 - Z.of_nat (length l0))) with (length s2 - length l0)%nat by (unfold len; lia).
-          replace (Z.to_nat (Z.of_nat (length l0) + Z.of_nat m)) with (m + length l0)%nat by lia.
-          rewrite Nat2Z.id.
-          rewrite (firstn_all2 (skipn (length l0) s2)) by (rewrite skipn_length; lia).
-          rewrite skipn_skipn. apply firstn_all2. rewrite skipn_length. lia. }
-        apply prefixb_spec in Hpre as [_ Hpre]. rewrite Hneedle in Hpre. rewrite Hs2'. exact Hpre.
-      - destruct Hcase as [->|[Hc _]]; [left; reflexivity|discriminate]. }
-    destruct (gpp_aux fuel s1' s2') as [[a o]| |]; try discriminate. contradiction.
-Qed.
-
-Lemma prop_patches_total_on_D_lemma s1 s2 : d_total s1 s2 = true -> generate_property_patches s1 s2 <> Panic.
-Proof. intros H. apply gpp_aux_total. apply d_total_inv. exact H. Qed.
